@@ -1,6 +1,6 @@
 # table consumed by tools_manifest.py
 ENGINES = [
-    {"name": "vv", "path": "vv/", "serves_properties": ["C02", "C03", "C04", "C05", "C06", "C07", "C09", "C11", "C12", "C13", "C14", "C15", "C17", "C18", "C19"], "kind_free_text": "runtime monitors: generators, independent flatbuffer reader/writer, compile drivers, sharded worker harness, evidence/findings"},
+    {"name": "vv", "path": "vv/", "serves_properties": ["C02", "C03", "C04", "C05", "C06", "C07", "C09", "C11", "C12", "C13", "C14", "C15", "C16", "C17", "C18", "C19"], "kind_free_text": "runtime monitors: generators, independent flatbuffer reader/writer, compile drivers, sharded worker harness, evidence/findings"},
 ]
 NOTES = ("Technique family: runtime monitoring and sanitizers. Every check runs the real code from /repo's working tree (codec rebuilt from the C "
          "sources on every run) under generated workloads with oracles observing executions; verdicts are violated / held-on-what-was-observed / "
@@ -136,3 +136,12 @@ check("C14", "exploration",
       "violation; single compilations are repeated under other PYTHONHASHSEED values.",
       "Baseline = CLI in a fresh process with PYTHONHASHSEED=0; convert/convert_bytes are compared with the CLI options they hard-wire; models that do not compile alone are skipped.",
       "runtime history differential (process-level record/compare)", "DESIGN.md 4/C14")
+
+check("C16", "exploration",
+      "Report-vs-behaviour differential: the supported-operators report is generated by the real CLI and parsed into per-operator constraint sentences; hooks on every constraint "
+      "function of TFLiteSemantic and TFLiteSupportedOperators record (operator, sentence, verdict) during real compilations; the sentences evaluated for an operator must be exactly "
+      "those the report lists; placement read from the output artefact must follow the verdicts (all hold -> NPU, one fails -> CPU operator with unchanged opcode); independent "
+      "predicates parsed from the report's own sentences judge single-operator networks sampled inside / on / just outside 14 documented numeric or type ranges and must agree "
+      "with the compiler's verdict for that sentence.",
+      "Sentences without an independent predicate are judged through the compiler's own verdict only (listed in the evidence); operators are matched to hook records by name.",
+      "runtime hooks on constraint functions + report parser + placement oracle", "DESIGN.md 4/C16")
